@@ -43,7 +43,13 @@ let handle (toks : string list) : (string * string * string) option =
     Some (s, s, "opq:callback-float")
   | ["scast"; kt; kf; w; v] ->
     let to_ = kind_of_string kt and from = kind_of_string kf and v = z_of_string v in
-    let m = (match sandbox_static_cast abi_lp32 (w = "V") to_ from v with
+    (* V: the operand is a cell of sandbox memory: store v through the reference, then cast from the bytes *)
+    let cast = if w = "V" then
+        (match store_int abi_lp32 from (z_of_string "64") v (fun _ -> z_of_string "165") with
+         | Some (Ok m') -> sandbox_static_cast_mem abi_lp32 to_ from (z_of_string "64") m'
+         | Some _ -> Some Abort | None -> None)
+      else sandbox_static_cast abi_lp32 false to_ from v in
+    let m = (match cast with
         | Some (Ok r) -> "V " ^ string_of_z r ^ " P " ^ string_of_z (wrap to_ v)
         | Some _ -> "ABORT" | None -> "NOCOMPILE") in
     let s = "V " ^ string_of_z (wrap to_ v) ^ " P " ^ string_of_z (wrap to_ v) in
@@ -59,7 +65,9 @@ let handle (toks : string list) : (string * string * string) option =
   | ["pcast"; which; w; off] ->
     let a = abs off in
     let stored = if w = "V" then sandbox_ptr region a else a in
-    let r = sandbox_ptr_cast (w = "V") region stored in
+    let r = if w = "V" then
+        sandbox_ptr_cast_mem (z_of_string "4") region (z_of_string "64") (store_ptr (z_of_string "4") region (z_of_string "64") a (fun _ -> z_of_string "165"))
+      else sandbox_ptr_cast false region stored in
     let m = "A " ^ string_of_z r and s = "A " ^ string_of_z a in
     Some (m, s, "pcast:" ^ which ^ ":" ^ w ^ (if a = Z0 then ":null" else ""))
   | _ -> None
